@@ -18,8 +18,8 @@ import (
 
 // Visible operations (context-switch points): the lock operations and socket reads/writes announce
 // themselves with vgate(op); the two atomics of the dirty flag are matched by name.
-//verif:visible (*sync/atomic.Bool).Load
-//verif:visible (*sync/atomic.Bool).Store
+//verif:visible[c08] (*sync/atomic.Bool).Load
+//verif:visible[c08] (*sync/atomic.Bool).Store
 
 // vhBLock: a readers-writer lock for interpreted threads (blocks by waiting for another thread's step).
 type vhBLock struct {
